@@ -30,12 +30,11 @@ package validator
 //@   props C01 C02 C04
 //@   assumes isNode(node) && consReady(node) && rulesTyped(node)
 //@   maypanic
-//@   modifies *
 //@   ensures beq(jsonValue, "null") && hasRule(node, constraint.NullableConstraintType) && boolOf(consOf(node).data[constraint.NullableConstraintType]) ==> normal
 //@   ensures !hasRule(node, constraint.EnumConstraintType) && !kindOK(litKind(jsonValue), jtypeOf(node), hasRule(node, constraint.NullableConstraintType)) ==> panics
 //@   defines panics <==> !litOK(node, jsonValue)
 //@   defines panics ==> (typeis(pv, errors.DocumentError) == litPosErr(node, jsonValue))
-//@   ensures panics && litKind(jsonValue) != 0 ==> (typeis(pv, errors.DocumentError) || errWF(pv))
+//@   ensures panics ==> (typeis(pv, errors.DocumentError) || errWF(pv) || typeis(pv, string))
 //@   loop 0 invariant consOf(node).mx.held == 0
 
 // C04/C01: a literal leaf is judged by ValidateLiteralValue on the bytes of the LiteralEnd event
@@ -55,6 +54,7 @@ package validator
 //@   maypanic
 //@   ensures panics <==> (!hasRule(node, constraint.EnumConstraintType) && !kindOK(litKind(value), jtypeOf(node), hasRule(node, constraint.NullableConstraintType)))
 //@   ensures panics && litKind(value) != 0 ==> errWF(pv) && errCodeOf(pv) == errors.ErrInvalidValueType
+//@   ensures panics && litKind(value) == 0 ==> typeis(pv, string)
 
 // C01/C02: array positions. Item i is validated against example element
 // min(i, last); at the end of the array every array rule is applied to the
